@@ -3,6 +3,7 @@ package main
 import (
 	"fmt"
 	"go/ast"
+	"go/token"
 	"go/types"
 	"strings"
 
@@ -290,6 +291,16 @@ func ruleCloneFields(c *Ctx, r *R) {
 				switch x := ins.(type) {
 				case *ssa.Store:
 					site := c.Pos(instrPos(ins))
+					// a struct parameter (or value receiver) spilled to a local that is then returned: `o.f = ...; return o` is a
+					// bulk copy of the input as well
+					if al, isAlloc := x.Addr.(*ssa.Alloc); isAlloc {
+						if prm, isParam := x.Val.(*ssa.Parameter); isParam {
+							if _, isStruct := prm.Type().Underlying().(*types.Struct); isStruct && returnsLoadOf(fn, al) {
+								bulk[x.Addr] = x
+								continue
+							}
+						}
+					}
 					// bulk struct copy *out = *in
 					if _, isParam := x.Addr.(*ssa.Parameter); isParam {
 						if ld, ok := x.Val.(*ssa.UnOp); ok {
@@ -568,6 +579,22 @@ var clonePayloadExempt = map[string]string{
 	"goMapObject":     "bridged host value",
 	"goStructObject":  "bridged host value",
 	"ottoError":       "error payload: name, message and a captured trace of frames (strings and positions); the frames' fn back-pointers are used for display only",
+}
+
+// returnsLoadOf: some return of fn returns the value loaded from the local al.
+func returnsLoadOf(fn *ssa.Function, al *ssa.Alloc) bool {
+	for _, b := range fn.Blocks {
+		ret, ok := b.Instrs[len(b.Instrs)-1].(*ssa.Return)
+		if !ok {
+			continue
+		}
+		for _, res := range ret.Results {
+			if ld, ok := res.(*ssa.UnOp); ok && ld.Op == token.MUL && ld.X == ssa.Value(al) {
+				return true
+			}
+		}
+	}
+	return false
 }
 
 func hasClonerParam(c *Ctx, fd *ast.FuncDecl) bool {
